@@ -13,10 +13,11 @@ CONSTANT Family            \* which universe to enumerate (see Universe below)
 \* 1: 2012-01-01 00Z (Sun)  2: 2012-01-01 06Z  3: 2012-01-02 00Z (Mon)  4: 2012-02-01 00Z  5: 2011-12-31 18Z (Sat)
 \* 6: 2012-02-29 12Z (leap day)  7: 2012-03-01 00Z  8: 2011-03-01 00Z (non-leap year)  9: 2012-12-31 23Z
 \* 10: 2012-01-01 01Z  11: 2012-01-01 02Z (runs one hour apart: relatively close as unix times, family C02Close)
+\* 12: 2012-01-01 00:30Z (a run that does not start on the hour, family C11All)
 TimePool == <<1325376000, 1325397600, 1325462400, 1328054400, 1325354400, 1330516800, 1330560000, 1298937600, 1356994800,
-              1325379600, 1325383200>>
+              1325379600, 1325383200, 1325377800>>
 LeadPool == <<0, 12, 24, 36, 47, 48, -6, -30>>        \* the last two: steps before the initialisation time
-LocPool  == <<1, 2, 3, 4, 1000001, 1000005>>       \* two seven-digit station ids a few units apart (family C02Close)
+LocPool  == <<1, 2, 3, 4, 1000001, 1000005, 71203, 71208>>       \* two seven-digit station ids a few units apart (family C02Close); two five-digit ids
 LatOf(s)  == IF s > 100 THEN 41 + (s % 10) ELSE 40 + 10 * s          \* 50, 60, 70, 80
 LonOf(s)  == IF s > 100 THEN 5 + (s % 10) ELSE IF s = 3 THEN 200 ELSE 10 * s     \* one station in the 0..360 convention
 ElevOf(s) == IF s > 100 THEN 50 + (s % 10) ELSE 100 * (s - 1)
@@ -154,6 +155,16 @@ SC3 == <<LocPool[5], LocPool[6], LocPool[2]>>
 UC02Close(u) == {[inp |-> <<FullIn(x, La, y), FullIn(z, Lb, w)>>, clim |-> NoClimGen, opt |-> NoOptions]
                    : x \in {TC3, <<TC3[3], TC3[1], TC3[2]>>}, z \in {TC3, <<TC3[2], TC3[3], TC3[1]>>},
                      y \in {SC3, <<SC3[2], SC3[3], SC3[1]>>}, w \in {SC3, <<SC3[3], SC3[2], SC3[1]>>}}
+\* inputs with DIFFERENT coverage along close coordinates: one file has a run one hour before (or a station a few units from) the
+\* common one, stored in front of it -- the common cases are those with EQUAL coordinates, not nearby ones; with and without a file
+\* lacking observations
+NoObsIn(g) == [g EXCEPT !.hasObs = FALSE]
+UC01Close(u) == {[inp |-> <<FullIn(a, La, sa), g>>, clim |-> NoClimGen, opt |-> NoOptions]
+                   : a \in {<<TimePool[11]>>, <<TimePool[1], TimePool[11]>>, <<TimePool[10]>>},
+                     sa \in {<<LocPool[6], LocPool[2]>>, <<LocPool[2], LocPool[5]>>},
+                     g \in UNION {{FullIn(b, Lb, sb), NoObsIn(FullIn(b, Lb, sb))}
+                                   : b \in {<<TimePool[10], TimePool[11]>>, <<TimePool[1], TimePool[10], TimePool[11]>>, <<TimePool[11], TimePool[10]>>},
+                                     sb \in {<<LocPool[5], LocPool[6], LocPool[2]>>, <<LocPool[2], LocPool[6], LocPool[5]>>}}}
 \* all three dimensions vary together over a reduced menu, three inputs
 Few(P) == {<<P[1], P[2]>>, <<P[2], P[1]>>, <<P[3], P[1], P[2]>>, <<P[2], P[3]>>}
 UC02All(u) == {[inp |-> <<FullIn(a, b, c), FullIn(d, e, f)>>, clim |-> NoClimGen, opt |-> NoOptions]
@@ -209,7 +220,7 @@ UC11Sel(u) == {[inp |-> <<[ts |-> SubSeq(TimePool, 1, 9), ls |-> L6, ss |-> Sa, 
                                                       WithOpt(NoOptions, "tod", {6, 18, 23}), WithOpt(NoOptions, "d", {20111231, 20121231, 20110301}),
                                                       WithOpt(WithOpt(NoOptions, "d", {20120101, 20120102, 20120201}), "tod", {0})}}
 L8 == L6 \o <<LeadPool[7], LeadPool[8]>>
-UC11All(u) == {[inp |-> <<[ts |-> SubSeq(TimePool, 1, 9), ls |-> L8, ss |-> Sa, hasObs |-> TRUE, mo |-> {<<1, 2, 1>>}, mf |-> {<<2, 3, 2>>}, bump |-> 0]>>,
+UC11All(u) == {[inp |-> <<[ts |-> SubSeq(TimePool, 1, 9) \o <<TimePool[12]>>, ls |-> L8, ss |-> Sa, hasObs |-> TRUE, mo |-> {<<1, 2, 1>>}, mf |-> {<<2, 3, 2>>}, bump |-> 0]>>,
              clim |-> NoClimGen, opt |-> NoOptions]}
 
 ---------------------------------------------------------------------------
@@ -239,6 +250,12 @@ In221(hasObs, mo, mf) == [ts |-> T2, ls |-> <<LeadPool[1], LeadPool[2]>>, ss |->
 UC18Single(u) == {[inp |-> <<In221(TRUE, a, b), In221(h, {}, d)>>, clim |-> NoClimGen, opt |-> o]
                     : a \in {{}, {<<1, 1, 1>>}}, b \in {{<<1, 2, 1>>}}, d \in {{}, {<<2, 1, 1>>}}, h \in BOOLEAN,
                       o \in {NoOptions, WithOpt(NoOptions, "obsrange", <<R(1112), R(1221)>>)}}
+\* two runs in different months x lead times 0, 12, 24 h x one location: slices along several DERIVED dimensions (lead time, lead-time day,
+\* month) that carry the same slice number but hold different cases
+InAxes(hasObs, mo, mf) == [ts |-> <<TimePool[1], TimePool[4]>>, ls |-> <<LeadPool[1], LeadPool[2], LeadPool[3]>>, ss |-> <<LocPool[1]>>,
+                           hasObs |-> hasObs, mo |-> mo, mf |-> mf, bump |-> 0]
+UC18Axes(u) == {[inp |-> <<InAxes(TRUE, a, b), InAxes(h, {}, d)>>, clim |-> NoClimGen, opt |-> NoOptions]
+                  : a \in {{}, {<<1, 1, 1>>}}, b \in {{<<1, 2, 1>>}}, d \in {{}, {<<2, 3, 1>>}}, h \in BOOLEAN}
 \* extra fields (two quantile levels that agree to two decimals, another score column), each with its own missing cells in each input:
 \* a case counts only if EVERY requested field is present in EVERY input (C01); the two quantile levels are different fields (C18)
 ExIn(hasObs, mo, mf, e1, e2, e3) == [ts |-> T2, ls |-> L1, ss |-> S2, hasObs |-> hasObs, mo |-> mo, mf |-> mf, bump |-> 0,
@@ -269,6 +286,12 @@ C12Leads == <<LeadPool[1], LeadPool[3], LeadPool[5]>>
 In12(mo, mf) == [ts |-> C12Times, ls |-> C12Leads, ss |-> <<LocPool[2], LocPool[1], LocPool[4]>>, hasObs |-> TRUE, mo |-> mo, mf |-> mf, bump |-> 0]
 UC12(u) == {[inp |-> <<In222(a, {}), In222({}, d)>>, clim |-> NoClimGen, opt |-> NoOptions] : a \in {{}, {p \in P222 : p[1] = 1}}, d \in {{}, {<<1, 2, 1>>}}}
       \cup {[inp |-> <<In12(a, {}), In12({}, d)>>, clim |-> NoClimGen, opt |-> NoOptions] : a \in {{}, {<<2, 1, 1>>, <<2, 2, 1>>, <<2, 3, 1>>}}, d \in {{<<5, 1, 2>>}}}
+\* station ids of five digits (more significant digits than the scores are printed with)
+UC12Ids(u) == {[inp |-> <<[In222({}, {}) EXCEPT !.ss = <<LocPool[7], LocPool[8]>>], [In222({}, {<<1, 2, 2>>}) EXCEPT !.ss = <<LocPool[8], LocPool[7]>>]>>,
+                clim |-> NoClimGen, opt |-> NoOptions],
+               \* and of seven digits, a few units apart
+               [inp |-> <<[In222({}, {}) EXCEPT !.ss = <<LocPool[5], LocPool[6]>>], [In222({}, {<<1, 2, 2>>}) EXCEPT !.ss = <<LocPool[6], LocPool[5]>>]>>,
+                clim |-> NoClimGen, opt |-> NoOptions]}
 \* the same tables with a climatology (-c): the legend and the columns are those of the scored inputs
 \* slices that hold exactly ONE valid pair (a 2x2 table with total 1 is a table) and slices that hold none
 UC12One(u) == {[inp |-> <<In222({<<1, 1, 1>>, <<1, 1, 2>>, <<2, 1, 1>>}, {}), In222({}, {<<1, 2, 2>>})>>, clim |-> NoClimGen, opt |-> NoOptions]}
@@ -288,7 +311,9 @@ T15In2 == [ts |-> Tb, ls |-> <<LeadPool[4], LeadPool[2], LeadPool[1]>>, ss |-> S
 T15In2NoObs == [T15In2 EXCEPT !.hasObs = FALSE]
 T15In3 == [T15In2 EXCEPT !.ls = <<LeadPool[4], LeadPool[2], LeadPool[1], LeadPool[3]>>]        \* the same lead times as input 1, in another order
 TMenu == {<<R(12), "sum", "leadtime">>, <<R(24), "sum", "leadtime">>, <<R(25), "mean", "leadtime">>, <<R(13), "max", "leadtime">>,
-          <<R(36), "range", "leadtime">>, <<R(7), "sum", "time">>, <<R(6), "min", "time">>}
+          <<R(36), "range", "leadtime">>, <<R(7), "sum", "time">>, <<R(6), "min", "time">>,
+          \* first-to-last statistics: "first" and "last" are those of the window in coordinate order, whatever the order in the file
+          <<R(25), "abschange", "leadtime">>, <<R(37), "change", "leadtime">>, <<R(3), "abschange", "time">>}
 \* -T on ENSEMBLE MEMBERS (columns e0, e1, e2 as extra fields): every member series is pre-aggregated like obs and fcst, and the event
 \* probability of a threshold the files do not store is the fraction of the pre-aggregated members at or below it -- per input
 EnsIn(g) == [ts |-> g.ts, ls |-> g.ls, ss |-> g.ss, hasObs |-> g.hasObs, mo |-> {}, mf |-> g.mf, bump |-> 0, ex |-> ("e0" :> {} @@ "e1" :> {} @@ "e2" :> {})]
@@ -312,6 +337,7 @@ Universe(u) ==
     [] Family = "C18Full"   -> UC01Full(0)
     [] Family = "C18Mix"    -> UC18Mix(0)
     [] Family = "C18Single" -> UC18Single(0)
+    [] Family = "C18Axes"   -> UC18Axes(0)
     [] Family = "C01Extra" -> UCExtra(0)
     [] Family = "C18Ens" -> {[inp |-> <<EnsIn(In212(TRUE, {}, {})), EnsIn(In212(TRUE, {}, {<<2, 1, 1>>}))>>, clim |-> NoClimGen, opt |-> NoOptions]}
     [] Family = "C18Extra" -> {g \in UCExtra(0) : g.inp[1].mo = {} /\ g.inp[2].mf = {}}
@@ -319,11 +345,12 @@ Universe(u) ==
     [] Family = "C04Quick"  -> UC04Quick(0)
     [] Family = "C04Clim"   -> UC04Clim(0)
     [] Family = "C12"       -> UC12(0)
-    [] Family = "C12Report" -> UC12(0) \cup UC12Clim(0) \cup UC12One(0)
+    [] Family = "C12Report" -> UC12(0) \cup UC12Clim(0) \cup UC12One(0) \cup UC12Ids(0)
     [] Family = "C02Order"  -> UC02Order(0)
     [] Family = "C02Sel"    -> UC02Sel(0)
     [] Family = "C02Repeat" -> UC02Repeat(0)
     [] Family = "C02Close"  -> UC02Close(0)
+    [] Family = "C01Close"  -> UC01Close(0)
     [] Family = "C02All"    -> UC02All(0)
     [] Family = "C02Three"  -> UC02Three(0)
     [] Family = "C03K1"     -> UC03(1)
